@@ -363,6 +363,11 @@ static void checkResponse(World &w, const ReqSpec *specs, const unsigned nspecs,
     vf_assert(got == want, "the parts are exactly the satisfiable requested bytes");
 }
 
+#ifdef VF_THOROUGH
+#define ARITH_NONDET(name) (vf_nondet_u64(name) & ((1ULL << 62) - 1))
+#else
+#define ARITH_NONDET(name) vf_nondet_u32(name)
+#endif
 // ---------------------------------------------------------------- entries
 // a requested spec with numbers base+0..base+hi (suffix lengths 0..hi), every shape
 static ReqSpec symbolicSpec(const int64_t base, const unsigned hi)
@@ -421,14 +426,17 @@ extern "C" void c15_big(void)
 #endif
 }
 
-// ---- arithmetic kernel with fully symbolic positions: one canonical spec, up to 3 buffers
+// ---- arithmetic kernel with fully symbolic positions: one canonical spec; one delivery step from an arbitrary point of the
+// transfer (induction over the number of buffers: the step is shown to re-establish the state it starts from)
+//   state after `sent` bytes of the range: range_iter.debt == len - sent, out.offset == off + sent (established by
+//   prepPartialResponseGeneration() for sent == 0, kept by every step as asserted below)
 extern "C" void c15_arith(void)
 {
     World w;
     w.setup(0, 0, true, 0);
-    const int64_t clen = (int64_t)(vf_nondet_u64("clen") & ((1ULL << 62) - 1));
-    const int64_t off = (int64_t)(vf_nondet_u64("specOffset") & ((1ULL << 62) - 1));
-    const int64_t len = (int64_t)(vf_nondet_u64("specLength") & ((1ULL << 62) - 1));
+    const int64_t clen = (int64_t)ARITH_NONDET("clen");
+    const int64_t off = (int64_t)ARITH_NONDET("specOffset");
+    const int64_t len = (int64_t)ARITH_NONDET("specLength");
     vf_assume(len >= 1 && off <= clen - len); // canonical: non-empty, inside the object
     w.clen = clen;
     HttpHdrRangeSpec *spec = new HttpHdrRangeSpec;
@@ -436,32 +444,37 @@ extern "C" void c15_arith(void)
     w.request->range->specs.push_back(spec);
     const int64_t declared = w.http->prepPartialResponseGeneration();
     vf_assert(declared == len, "single-part 206 declares the range length");
+    vf_assert(w.http->range_iter.debt() == len && w.http->out.offset == off, "initial state: nothing sent");
     HttpHdrContRange cr;
     httpHdrContRangeSet(&cr, *spec, clen);
     vf_assert(cr.spec.offset == off && cr.spec.length == len && cr.elength == clen, "Content-Range states the range and the representation length");
-    int64_t pos = off;     // next object byte the client must get
-    int64_t ask = 0;       // the first buffer starts at 0
-    bool complete = false;
-    for (unsigned round = 0; round < 3 && !complete; ++round) {
-        const uint64_t blen = vf_range(round ? 1 : 0, 4096, "bufLen");
-        vf_assume((int64_t)blen <= clen - ask);
-        StoreIOBuffer bodyData;
-        bodyData.offset = ask; bodyData.length = blen; bodyData.data = reinterpret_cast<char *>(w.head);
-        const size_t n = w.stream->lengthToSend(bodyData.range());
-        w.stream->noteSentBodyBytes(n);
-        // the piece sent is object[ask, ask+n)
-        vf_assert(n <= blen, "never sends more than the buffer holds");
-        vf_assert(n == 0 || ask == pos, "bytes are sent only from the first missing position");
-        vf_assert((int64_t)n <= off + len - pos, "never sends beyond the end of the range");
-        if (round) vf_assert(n == (blen < (uint64_t)(off + len - pos) ? blen : (uint64_t)(off + len - pos)), "a buffer that starts at the missing position is used up to the end of the range");
-        pos += n;
-        complete = !w.stream->canPackMoreRanges();
-        vf_assert(complete == (pos == off + len), "the stream completes exactly when the whole range has been sent");
-        if (!complete) {
-            ask = w.stream->getNextRangeOffset();
-            vf_assert(ask == pos, "pullData() asks for the first missing byte");
-        }
+    // an arbitrary reachable point: `sent` bytes of the range are out, at least one is missing
+    const bool firstBuffer = vf_concretize(vf_range(0, 1, "firstBuffer"));
+    const int64_t sent = firstBuffer ? 0 : (int64_t)ARITH_NONDET("sent");
+    vf_assume(sent >= 0 && sent < len);
+    w.http->range_iter.debt(len - sent);
+    w.http->out.offset = off + sent;
+    const int64_t pos = off + sent;  // next object byte the client must get
+    const int64_t rest = len - sent;
+    // the buffer: the first one starts at object offset 0 whatever the range is; later ones where pullData() asked
+    int64_t ask = 0;
+    if (!firstBuffer) {
+        ask = w.stream->getNextRangeOffset();
+        vf_assert(ask == pos, "pullData() asks for the first missing byte");
     }
+    const uint64_t blen = vf_range(firstBuffer ? 0 : 1, 4096, "bufLen");
+    vf_assume((int64_t)blen <= clen - ask);
+    StoreIOBuffer bodyData;
+    bodyData.offset = ask; bodyData.length = blen; bodyData.data = reinterpret_cast<char *>(w.head);
+    const size_t n = w.stream->lengthToSend(bodyData.range());
+    w.stream->noteSentBodyBytes(n);
+    // the piece sent is object[ask, ask+n)
+    if (ask == pos) vf_assert(n == (blen < (uint64_t)rest ? blen : (uint64_t)rest), "a buffer that starts at the missing position is used up to the end of the range");
+    else vf_assert(n == 0, "bytes are sent only from the first missing position");
+    vf_assert(w.http->range_iter.debt() == rest - (int64_t)n && w.http->out.offset == pos + (int64_t)n, "state after the step: debt and offset account for the bytes sent");
+    const bool complete = !w.stream->canPackMoreRanges();
+    vf_assert(complete == ((int64_t)n == rest), "the stream completes exactly when the whole range has been sent");
+    if (!complete) vf_assert(w.stream->getNextRangeOffset() == pos + (int64_t)n, "pullData() then asks for the first missing byte");
     vf_reach(complete ? "complete" : "in-progress");
     WITNESS_POINT();
 }
